@@ -10,6 +10,11 @@ theorem forall_byte {P : UInt8 → Prop} (h : ∀ n : Fin 256, P (UInt8.ofNat n.
 
 namespace Str
 
+theorem hasPrefix_append (p rest : Str) : hasPrefix (p ++ rest) p = true := by
+  induction p with
+  | nil => cases rest <;> simp [hasPrefix]
+  | cons a p ih => simp [hasPrefix, ih]
+
 theorem cut_fst (c : UInt8) (s : Str) : (cut c s).1 = s.takeWhile (· ≠ c) := by
   induction s with
   | nil => simp [cut]
